@@ -15,6 +15,7 @@ import (
 	"io"
 	"log/slog"
 	"net"
+	"slices"
 	"strings"
 	"sync"
 	"sync/atomic"
@@ -505,9 +506,7 @@ func (c *client) receive(r io.Reader) (err error) {
 	}
 
 	size := binary.BigEndian.Uint32(sz[:])
-	b := make([]byte, size)
-
-	_, err = io.ReadFull(r, b)
+	b, err := readResponse(r, size)
 	if err != nil {
 		return ServerError{err}
 	}
@@ -613,6 +612,32 @@ func (c *client) receive(r io.Reader) (err error) {
 		}
 	}
 	return
+}
+
+// readResponse reads a response of size bytes. The size comes from the wire:
+// when the stream is corrupted, or out of sync, it can be anything up to 4 GB.
+// So large responses are read in chunks and the buffer grows with the data
+// that has actually been received instead of being allocated up front.
+func readResponse(r io.Reader, size uint32) ([]byte, error) {
+	const chunk = 4 << 20
+	if size <= chunk {
+		b := make([]byte, size)
+		_, err := io.ReadFull(r, b)
+		return b, err
+	}
+	b := make([]byte, 0, chunk)
+	for uint32(len(b)) < size {
+		n := int(size) - len(b)
+		if n > chunk {
+			n = chunk
+		}
+		b = slices.Grow(b, n)
+		if _, err := io.ReadFull(r, b[len(b):len(b)+n]); err != nil {
+			return nil, err
+		}
+		b = b[:len(b)+n]
+	}
+	return b, nil
 }
 
 func exceptionToError(class, stack string) error {
